@@ -135,6 +135,14 @@ func cmdCheck(args []string) int {
 				for _, pat := range f.Obligations {
 					if matchObl(pat, name) {
 						cl.Region = re
+						if f.Observed != "" {
+							oe, err := ParseExpr(f.Observed)
+							if err != nil {
+								fmt.Fprintf(os.Stderr, "govc: known finding %s: bad observed: %v\n", f.ID, err)
+								return 2
+							}
+							cl.Observed = oe
+						}
 					}
 				}
 			}
